@@ -446,6 +446,7 @@ func c01(p *model.Prog, r *report.Result) {
 	w5CacheKind(p, r, "C01.R12")
 	w6MsgLenOfPayload(p, r, "C01.R13")
 	w6FanoutLoops(p, r, "C01.R14")
+	w9SetMetadata(p, r, "C01.R15")
 	c01r9(p, r)
 }
 
